@@ -33,7 +33,7 @@ import scan_units
 import spec_emph
 
 ID = 'C14'
-EXTRA_MODULES = ['Mistletoe.Proofs.Inert', 'Mistletoe.Proofs.InertInline', 'Mistletoe.Proofs.InertInline2', 'Mistletoe.Proofs.InertInline3', 'Mistletoe.Proofs.InertInline5', 'propsdriver']
+EXTRA_MODULES = ['Mistletoe.Proofs.Inert', 'Mistletoe.Proofs.InertInline', 'Mistletoe.Proofs.InertInline2', 'Mistletoe.Proofs.InertInline3', 'Mistletoe.Proofs.InertInline5', 'Mistletoe.Proofs.InertCont', 'propsdriver']
 RULE = ('paragraphs of 1-4 lines of 1-8 tokens from a ~120-token vocabulary (intraword underscores, isolated * - + # > = | ~ ^ $ '
         '% @, unpaired and unlinked brackets, ampersands not starting a reference, digits/dots/parentheses not forming list '
         'markers, quotes, non-ASCII letters and punctuation), kept only when the spec-derived predicate `inert` accepts them. '
@@ -41,9 +41,8 @@ RULE = ('paragraphs of 1-4 lines of 1-8 tokens from a ~120-token vocabulary (int
 TRUSTED = ['harness/props/c14.py:inert is the independent reading of the specification used as filter (conservative: it only '
            'accepts paragraphs in which the specification gives no character a meaning)']
 ASSUMPTIONS = []
-PARTIAL = ['the Lean hypotheses (`inertLine`, `proseLine`, `inertBody5` - Props/C14_Wide.lean) are sufficient conditions, not the '
-           'whole inert domain of the specification: a continuation line that begins with "[" or is a lone ordered marker, trailing '
-           'spaces of some shapes, "<!" / "<?" followed later by ">" without forming a construct are outside them; those paragraphs '
+PARTIAL = ['the Lean hypotheses (`inertLine` of the first line, `inertCont` of the later lines - Props/C14_Cont.lean -, `proseLine`, `inertBody5` - Props/C14_Wide.lean) are sufficient conditions, not the '
+           'whole inert domain of the specification: trailing spaces of some shapes, "<!" / "<?" followed later by ">" without forming a construct are outside them; those paragraphs '
            'are covered by the exploration against the spec-derived predicate only (the evidence gives the measured share of the '
            'spec-derived inert domain that meets the hypotheses)']
 
@@ -207,7 +206,7 @@ def units(ctx):
     n_spec = n_both = n_lean = n_narrow = 0
     for ls, h in zip(paras, hyps):
         spec_ok = inert(ls)
-        lean_ok = isinstance(h, dict) and all(h.get(k) for k in ('nonEmpty', 'oneLine', 'inertLine', 'proseLine', 'inertBody5'))
+        lean_ok = isinstance(h, dict) and all(h.get(k) for k in ('nonEmpty', 'oneLine', 'inertLineCont', 'proseLine', 'inertBody5'))
         n_spec += spec_ok
         n_lean += lean_ok
         n_narrow += bool(lean_ok and h.get('inertBody'))
